@@ -9,6 +9,7 @@ package main
 import (
 	"encoding/json"
 	"fmt"
+	"math"
 	"math/rand"
 	"sort"
 	"strings"
@@ -242,18 +243,132 @@ func replayC17(c *Ctx) (checked, steps int, mism []Mismatch) {
 	return
 }
 
-func runHistoryS(w *tr.W, hist []SAct) {
+// wide16 is an order-preserving embedding of the abstract values 0..15 into the whole int range.  A history "in wide16" is executed on
+// the embedded values and logged in abstract values (anything outside the image is logged as 900000+k), so that the acceptor - whose
+// integers are 32-bit - judges the order-only operations also where differences of elements overflow.
+var wide16 = []int{math.MinInt, math.MinInt + 1, math.MinInt + 2, -6000000000000000000, -4700000000000000000, -(1 << 62), -(1 << 32) - 1, -1,
+	0, 1, 1 << 31, 1 << 62, 4700000000000000000, 6000000000000000000, math.MaxInt - 1, math.MaxInt}
+
+type embedding struct {
+	fwd     []int
+	back    map[int]int
+	strange map[int]int
+}
+
+func newEmbedding(name string) *embedding {
+	if name == "" {
+		return nil
+	}
+	if name != "wide16" {
+		panic("unknown embedding " + name)
+	}
+	e := &embedding{fwd: wide16, back: map[int]int{}, strange: map[int]int{}}
+	for i, v := range wide16 {
+		e.back[v] = i
+	}
+	return e
+}
+
+func (e *embedding) to(xs []int) []int {
+	if e == nil || xs == nil {
+		return xs
+	}
+	out := make([]int, len(xs))
+	for i, x := range xs {
+		out[i] = e.fwd[x]
+	}
+	return out
+}
+
+func (e *embedding) from(xs []int) []int {
+	if e == nil || xs == nil {
+		return xs
+	}
+	out := make([]int, len(xs))
+	for i, x := range xs {
+		if a, ok := e.back[x]; ok {
+			out[i] = a
+		} else if x == -987654321 {
+			out[i] = x
+		} else {
+			if _, ok := e.strange[x]; !ok {
+				e.strange[x] = 900000 + len(e.strange)
+			}
+			out[i] = e.strange[x]
+		}
+	}
+	return out
+}
+
+func runHistoryS(w *tr.W, hist []SAct) { runHistoryE(w, hist, "") }
+
+func runHistoryE(w *tr.W, hist []SAct, emb string) {
 	hs := map[int]*sortints.SortedInts{}
+	e := newEmbedding(emb)
 	for _, a := range hist {
-		r, xsAfter, res := applyS(hs, a)
+		b := a
+		if e != nil {
+			b.Xs, b.Ys = e.to(a.Xs), e.to(a.Ys)
+			if a.Op == "Remove" || a.Op == "ContainsSingle" {
+				b.X = e.fwd[a.X]
+			}
+		}
+		r, xsAfter, res := applyS(hs, b)
+		if e != nil {
+			r.S, xsAfter = e.from(r.S), e.from(xsAfter)
+		}
 		if a.Xs == nil {
 			a.Xs = []int{}
 		}
-		w.Emit(tr.E{"ev": "Op", "a": a, "r": r, "res": res, "xs_after": xsAfter, "obs": observeS(hs, 3)})
+		ob := observeS(hs, 3)
+		if e != nil {
+			for i := range ob {
+				ob[i].S = e.from(ob[i].S)
+			}
+		}
+		w.Emit(tr.E{"ev": "Op", "a": a, "r": r, "res": res, "xs_after": xsAfter, "obs": ob})
 		if strings.HasPrefix(res, "crash:") {
 			return
 		}
 	}
+}
+
+// wideHistoryS: order-only operations over the abstract values 0..15 (executed through wide16)
+func wideHistoryS(r *rand.Rand, length int) []SAct {
+	list := func() []int {
+		xs := make([]int, r.Intn(8))
+		for i := range xs {
+			xs[i] = r.Intn(16)
+		}
+		return xs
+	}
+	hist := []SAct{{Op: "New", H: 1, Xs: list(), Z: r.Intn(2)}, {Op: "New", H: 2, Xs: list(), Z: r.Intn(2)}}
+	fun := []string{"Union", "Intersection", "SetMinus", "XOR", "IntersectionSize", "ContainsSorted"}
+	for len(hist) < length {
+		h := 1 + r.Intn(2)
+		switch x := r.Intn(100); {
+		case x < 10:
+			hist = append(hist, SAct{Op: "New", H: h, Xs: list(), Z: r.Intn(2)})
+		case x < 25:
+			hist = append(hist, SAct{Op: "Add", H: h, Xs: list()})
+		case x < 35:
+			hist = append(hist, SAct{Op: "Remove", H: h, X: r.Intn(16)})
+		case x < 42:
+			hist = append(hist, SAct{Op: "UnionM", H: h, H2: 3 - h})
+		case x < 85:
+			hist = append(hist, SAct{Op: fun[r.Intn(len(fun))], H: h, H2: 3 - h})
+		case x < 93:
+			hist = append(hist, SAct{Op: "ContainsSingle", H: h, X: r.Intn(16)})
+		default:
+			base := r.Perm(16)[:2+r.Intn(9)] // at most 10 distinct values per sort input (cost of the bag comparison in TLC)
+			xs := make([]int, 2+r.Intn(30))
+			for i := range xs {
+				xs[i] = base[r.Intn(len(base))]
+			}
+			hist = append(hist, SAct{Op: "Sort", Xs: xs})
+		}
+	}
+	return hist
 }
 
 func randHistoryS(r *rand.Rand, length int) []SAct {
@@ -406,12 +521,17 @@ func driveC17(c *Ctx) {
 		for _, raw := range readInputs(c.In) {
 			var in struct {
 				Hist []SAct `json:"hist"`
+				Emb  string `json:"emb"`
 			}
 			if err := json.Unmarshal(raw, &in); err != nil {
 				panic(err)
 			}
-			w := set.Begin(sKey(in.Hist), tr.E{"input": in})
-			runHistoryS(w, in.Hist)
+			key := sKey(in.Hist)
+			if in.Emb != "" {
+				key = in.Emb + ":" + key
+			}
+			w := set.Begin(key, tr.E{"input": in})
+			runHistoryE(w, in.Hist, in.Emb)
 		}
 		finish()
 		return
@@ -481,6 +601,17 @@ func driveC17(c *Ctx) {
 		w := set.Begin(sKey(hist), tr.E{"input": map[string]interface{}{"hist": hist}})
 		runHistoryS(w, hist)
 	}
+	// the same algebra on values spread over the whole int range (differences of elements overflow): order-only operations, logged in abstract values
+	nwide := 150
+	if c.Thorough() {
+		nwide = 1500
+	}
+	for i := 0; i < nwide; i++ {
+		hist := wideHistoryS(r, 24)
+		w := set.Begin("wide16:"+sKey(hist), tr.E{"input": map[string]interface{}{"hist": hist, "emb": "wide16"}})
+		runHistoryE(w, hist, "wide16")
+	}
+	meta["B_wide_histories"] = nwide
 	meta["B_lopsided_histories"] = nlop
 	meta["B_histories"] = nh
 	meta["B_nontrivial"] = nontrivial
